@@ -131,6 +131,32 @@ def has_consecutive_indices(n):
     return False
 
 
+def _object_types(n):
+    """(set of object types a comparison-level expression can be satisfied with, True if some AND below joins operands that share none)"""
+    k = n[0]
+    if k in ("cmp", "exists"):
+        return {n[1][0]}, False
+    parts = [_object_types(x) for x in n[1]]
+    bad = any(b for _, b in parts)
+    if k == "or":
+        return set().union(*[t for t, _ in parts]), bad
+    common = set.intersection(*[t for t, _ in parts])
+    return common, bad or not common
+
+
+def has_unsatisfiable_and(n):
+    """Does some AND inside an observation expression join operands no single object type can satisfy?  (That, and only that, is
+    what the recorded finding cross-type-and-refused is about; an AND whose operands share a type must be accepted.)"""
+    k = n[0]
+    if k in ("oand", "oor", "ofb"):
+        return any(has_unsatisfiable_and(x) for x in n[1])
+    if k == "qual":
+        return has_unsatisfiable_and(n[1])
+    if k == "obs":
+        return _object_types(n[1])[1]
+    return _object_types(n)[1]
+
+
 def vkey(key, ast_norm):
     """EXISTS has no counterpart in the object model (recorded finding): whatever goes wrong on a pattern that uses it is that mechanism.
     Likewise a path step whose name begins with a quote character: the printer takes it for an already quoted step (recorded finding)."""
@@ -155,7 +181,7 @@ def judge_text(ctx, text, ast_norm, version, route, witness):
     except Exception as e:
         key = vkey("create-raised:" + type(e).__name__, ast_norm)
         if isinstance(e, ValueError) and "satisfiable with the same object type" in str(e):
-            key = "cross-type-and-refused"      # recorded finding: the object model refuses AND across object types (the repository's tests assert it)
+            key = "cross-type-and-refused" if has_unsatisfiable_and(ast_norm) else "satisfiable-and-refused"      # recorded finding: the object model refuses AND across object types (the repository's tests assert it)
         ctx.violation(key, "create_pattern_object raised %s on a valid pattern: %s" % (type(e).__name__, str(e)[:120]),
                       dict(witness, route=route, pattern=text, exception=repr(e)[:300]))
         return None
